@@ -57,6 +57,35 @@ def crafted(rng, tier):
             if w2 < (1 << 31):
                 out.append(("truncated: type %d, %d parts of %d points declared" % (code, nparts, per),
                             refesri.encode_header(code, [0] * 8, 50 + 4 + w2) + struct.pack(">ii", 1, w2) + b2, None))
+    # every multi-vertex type, with and without its optional M block: a record whose counts and declared length are
+    # consistent with a huge point count (the length formula is taken from the reference encoder: linear in n), cut
+    # right after the counts
+    for code in [t for t in F.ALL_TYPES if t not in refesri.POINT]:
+        for with_m in ([True, False] if code in refesri.HAS_M else [False]):
+            def rec_n(n):
+                r = {"code": code, "box": [0] * 4, "pts": [[0, 0]] * n}
+                if code not in refesri.MULTIPOINT:
+                    r["offsets"] = [0]
+                    if code == 31:
+                        r["kinds"] = [0]
+                if code in refesri.HAS_Z:
+                    r["zrange"], r["zs"] = [0, 0], [0] * n
+                if code in refesri.HAS_M:
+                    r["mrange"], r["ms"] = ([0, 0], [0] * n) if with_m else (None, None)
+                return refesri.encode_record(1, r)
+            b1, b2 = rec_n(1), rec_n(2)
+            per = len(b2) - len(b1)
+            fixed = len(b1) - per - 8                     # content bytes that do not depend on n
+            npts_off = 8 + 4 + 32 + (0 if code in refesri.MULTIPOINT else 4)
+            for big in (1 << 20, (1 << 24) + 3):
+                words = (fixed + per * big) // 2
+                if words >= (1 << 31):
+                    continue
+                body = bytearray(b1[: npts_off + 4 + (0 if code in refesri.MULTIPOINT else 4) + (4 if code == 31 else 0)])
+                body[4:8] = struct.pack(">i", words)
+                body[npts_off:npts_off + 4] = struct.pack("<i", big)
+                out.append(("unbacked type %d %s M, %d points" % (code, "with" if with_m else "without", big),
+                            refesri.encode_header(code, [0] * 8, 50 + 4 + words) + bytes(body) + bytes(64), None))
     # an index that really holds n entries but announces far more
     pt = {"type": 1, "box": [0] * 8, "records": [{"num": 1, "shape": {"code": 1, "x": 0, "y": 0}}]}
     shp1 = refesri.encode_shp(pt)
@@ -86,7 +115,8 @@ def run(rep, tier, rng):
     cases = [[8, 1 if shx is not None else 0] + C.pack_bytes(shp) + (C.pack_bytes(shx) if shx is not None else [])
              for (_, shp, shx) in inputs]
     rep.cov["rule"] = ("%d inputs: valid files; every 32-bit field of valid .shp/.shx files replaced by boundary values (as C07); "
-                       "counts consistent with the declared record length but not backed by data (2^20 .. 2^28 points/parts); "
+                       "counts consistent with the declared record length but not backed by data (2^20 .. 2^28 points/parts; every "
+                       "multi-vertex type with and without its M block); "
                        "records fully backed by data with thousands of descending or empty part offsets; records that declare "
                        "hundreds of parts of more than 1024 points each, consistently sized, with the file cut inside the first "
                        "part; indexes that hold n "
@@ -101,7 +131,7 @@ def run(rep, tier, rng):
         rep.dist(label.split("=")[0].split(" x")[0][:40])
         n = len(shp) + (len(shx) if shx is not None else 0)
         msg = None
-        if r in ([-2], [-1]) or len(r) != 3:
+        if r in ([-2], [-1], [-5]) or len(r) != 3:
             msg = "harness died or rejected the case (%s)" % label
         else:
             peak, largest, status = r
